@@ -167,6 +167,7 @@ theorem self_fixed (st : State) (op : Op) :
     | transferOwnership => rw [transferOwnership_inv h]; exact ⟨rfl, rfl⟩
     | userTransfer => obtain ⟨_, _, b, _, rfl⟩ := userTransfer_inv h; exact ⟨rfl, rfl⟩
     | adminMint => obtain ⟨_, b, _, rfl⟩ := adminMint_inv h; exact ⟨rfl, rfl⟩
+    | upgradeMigrate au => cases (apply_upgradeMigrate_ok H st au _ h).1; exact ⟨rfl, rfl⟩
 
 theorem service_balance_step (st : State) (op : Op) (token : Addr) (hext : External st.self op) :
     (step H st op).1.bank.bal token st.self =
@@ -218,6 +219,7 @@ theorem service_balance_step (st : State) (op : Op) (token : Addr) (hext : Exter
       obtain ⟨h1, b, hb, rfl⟩ := adminMint_inv h
       obtain ⟨_, hbal⟩ := mint_some hb
       simp [flow, hbal, Ne.symm h1]
+    | upgradeMigrate au => cases (apply_upgradeMigrate_ok H st au _ h).1; simp [flow]
 
 /-- **balance equation over every history**, for every token -/
 theorem service_balance_run (st : State) (ops : List Op) (token : Addr) (hext : ∀ op ∈ ops, External st.self op) :
@@ -340,6 +342,10 @@ theorem only_collector_pays_out (st : State) (op : Op) (token : Addr)
       obtain ⟨h1, b, hb, rfl⟩ := adminMint_inv h'
       obtain ⟨_, hbal⟩ := mint_some hb
       simp [hbal, Ne.symm h1] at h
+    | upgradeMigrate au =>
+      exfalso
+      cases (apply_upgradeMigrate_ok H st au _ h').1
+      simp at h
 
 /-- never overdrawn: no balance (of the service or anyone) ever becomes negative, over every history -/
 theorem nonneg_step (st : State) (op : Op) (h : BankNonNeg st.bank) : BankNonNeg (step H st op).1.bank := by
@@ -374,6 +380,7 @@ theorem nonneg_step (st : State) (op : Op) (h : BankNonNeg st.bank) : BankNonNeg
       have := h t x
       simp only [hbal]
       split <;> omega
+    | upgradeMigrate au => cases (apply_upgradeMigrate_ok H st au _ h').1; exact h
 
 theorem nonneg_run (st : State) (ops : List Op) (h : BankNonNeg st.bank) : BankNonNeg (run H st ops).bank := by
   induction ops generalizing st with
@@ -404,6 +411,13 @@ theorem nonpositive_payment_rejected (st : State) (auths : List Addr) (sender : 
     · exact ⟨_, rfl⟩
 
 /-! ### non-vacuity (the model RUN in the kernel on a concrete history, toy hash) -/
+/-- the owner's administrative step — upgrade to the same code and migration — moves no funds and changes no role, whether it is
+    accepted or refused; it is accepted only with the owner's authorisation (the history theorems above range over this operation) -/
+theorem admin_step_changes_nothing (st : State) (auths : List Addr) :
+    (step H st (.upgradeMigrate auths)).1 = st ∧
+    (∀ r, apply H st (.upgradeMigrate auths) = .ok r → r = (st, []) ∧ st.owner ∈ auths) :=
+  ⟨step_upgradeMigrate_fst H st auths, fun r h => apply_upgradeMigrate_ok H st auths r h⟩
+
 section NonVacuity
 open Cgp.Toy
 
